@@ -23,7 +23,7 @@ for m in sorted(os.listdir(src)):
     line = (r.stdout.strip().splitlines() or ['?'])[-1]
     ok = 'apply=ok build=ok suite=pass demo_with=FAIL demo_without=PASS' in line
     print(line, '=> KEPT' if ok else '=> NOT CONFIRMED (left in place for inspection)')
-    json.dump({'id': mid, 'breaks_property': pid, 'source': 'independent sub-agent (third round) given only the property text and a scratch worktree',
+    json.dump({'id': mid, 'breaks_property': pid, 'source': 'independent sub-agent (fourth round: changes whose wrong behaviour needs a computed condition or a narrow part of the input space) given only the property text and a scratch worktree',
                'needs_to_manifest': 'see notes.md',
                'confirmed': {'cmd': 'tools/confirm_mutant.sh seeded/' + mid, 'result': line.split(' ', 1)[-1], 'repo_head': head}},
               open(os.path.join(dst, 'meta.json'), 'w'), indent=1)
